@@ -21,11 +21,30 @@
 (* InForce); compiling again changes nothing (Recompile).  A user prior attached to a parameter *)
 (* of either owner is the prior in force after compile_params, its space decides what reaches   *)
 (* the owner's setter, and default priors only go to parameters that were given none.           *)
+(*                                                                                             *)
+(* WHO maps the unit cube is a further dimension (round 5).  "Each prior maps the unit interval *)
+(* ... exactly as the inverse CDF ... for all u in [0,1]" is, for a retrieval, a statement      *)
+(* about the callable a SAMPLER is handed: every sampler wrapper builds its own (nestle:        *)
+(* nestle_uniform_prior(theta) -> tuple; MultiNest: Prior(cube, ndim, nparams) in place;        *)
+(* PolyChord / dyPolyChord: prior(hypercube) -> list) around the priors in force.  `via` is     *)
+(* "direct" (the check calls prior.sample(u) itself, as before) or one of Samplers; the domain  *)
+(* of the sampler's callable is the whole unit cube: the grid k/UN WITH the faces 0 and 1 for   *)
+(* the uniform kinds, and the tail ladder 2^-k, 1-2^-k, 10^-k, 1-10^-k of Priors.tla (TailPts). *)
+(* What the callable returns for the cube point (u, .., u) is, in every coordinate, the exact   *)
+(* inverse CDF of the prior in force for that coordinate (SamplerInv).  Cube = "exact" is the   *)
+(* code; "clipped" (the cube kept away from its faces before the priors see it: flat below 1/UN *)
+(* and above 1-1/UN) is the expected-counterexample variant, MC_PriorDelivery_clipped.cfg.      *)
 EXTENDS Priors, IOUtils
 CONSTANTS QNum, QShift, QDen, ENum, EShift, SNum, SDen, Export,
-          Companies     \* subset of {"alone", "default", "user"}: what else is fitted, on the other owner
-VARIABLES phase, focus, comp, pk, route, name, call, user, inforce, recv
-vars == <<phase, focus, comp, pk, route, name, call, user, inforce, recv>>
+          Companies,    \* subset of {"alone", "default", "user"}: what else is fitted, on the other owner
+          Samplers,     \* who maps the unit cube: subset of {"direct", "nestle", "multinest", "polychord", "dypolychord"}
+          SamplerCompanies, SamplerRoutes,  \* the companies / routes the samplers' callables are exported for (the priors in force
+                        \* do not remember their route: quick walks the mixed sets by set_prior / default, thorough every company)
+          Cube          \* "exact": the sampler's callable hands the priors the cube as it is; "clipped": self-test
+VARIABLES phase, focus, comp, pk, route, name, call, user, inforce, recv,
+          via,          \* whose callable maps the cube
+          trecv         \* what the callable returns on the tail ladder (per owner: one entry per point of TailPts)
+vars == <<phase, focus, comp, pk, route, name, call, user, inforce, recv, via, trecv>>
 
 MCZ == ndJsonDeserialize(IOEnv.PRIORS_Z_FILE)[1].z
 QS == {R(n - QShift, d) : n \in QNum, d \in QDen}
@@ -72,7 +91,18 @@ Setting(o) ==
              ELSE [pk |-> ck, route |-> "default", name |-> DefaultCall(ModeOf(ck), bd).cls, call |-> DefaultCall(ModeOf(ck), bd), bounds |-> bd]
 Nobody == [o \in Owners |-> NoPrior]
 
+\* ---- the sampler's own callable: cube point -> value handed to update_model
+Clipped == Cube = "clipped" /\ via # "direct"
+CubeK(k) == IF Clipped THEN (IF k < 1 THEN 1 ELSE IF k > UN - 1 THEN UN - 1 ELSE k) ELSE k
+CubeTail(p, pt) == IF Clipped
+                   THEN LET x == Sample(p, IF pt.side = "lo" THEN 1 ELSE UN - 1)
+                        IN  IF p.kind \in UniKinds THEN [a |-> x, w |-> Q(0)] ELSE x
+                   ELSE TailSample(p, pt)
+
 Init == /\ phase = "in" /\ user = Nobody /\ inforce = Nobody /\ recv = [o \in Owners |-> <<>>]
+        /\ trecv = [o \in Owners |-> <<>>]
+        /\ via \in Samplers
+        /\ via # "direct" => (comp \in SamplerCompanies /\ route \in SamplerRoutes)
         /\ focus \in Owners
         /\ comp \in Companies
         /\ pk \in ParamKinds
@@ -90,30 +120,33 @@ Attach == /\ phase = "in"
                              ELSE IF s.route = "set_prior" THEN Build(s.call)
                              ELSE FromText(Text(s.call, s.name))]
           /\ phase' = "set"
-          /\ UNCHANGED <<focus, comp, pk, route, name, call, inforce, recv>>
+          /\ UNCHANGED <<focus, comp, pk, route, name, call, inforce, recv, via, trecv>>
 \* one pass of compile_params over the fitted parameters of one owner
 PassResult(o) == IF o \in Fitted THEN InForce(o, user[o], ModeOf(Setting(o).pk), Setting(o).bounds) ELSE NoPrior
 CompileModel == /\ phase = "set"
                 /\ inforce' = [inforce EXCEPT !["model"] = PassResult("model")]
                 /\ phase' = "pass1"
-                /\ UNCHANGED <<focus, comp, pk, route, name, call, user, recv>>
+                /\ UNCHANGED <<focus, comp, pk, route, name, call, user, recv, via, trecv>>
 CompileObservation == /\ phase = "pass1"
                       /\ inforce' = [inforce EXCEPT !["observation"] = PassResult("observation")]
                       /\ phase' = "compiled"
-                      /\ UNCHANGED <<focus, comp, pk, route, name, call, user, recv>>
+                      /\ UNCHANGED <<focus, comp, pk, route, name, call, user, recv, via, trecv>>
 \* compile_params may be called again at any time before the fit (both passes anew, from what the user gave)
 Recompile == /\ phase = "compiled"
              /\ inforce' = [o \in Owners |-> PassResult(o)]
-             /\ UNCHANGED <<phase, focus, comp, pk, route, name, call, user, recv>>
+             /\ UNCHANGED <<phase, focus, comp, pk, route, name, call, user, recv, via, trecv>>
 \* the sampler's step for every u of the grid: cube -> prior.sample(u) -> update_model -> the owners' setters
 Update == /\ phase = "compiled"
           /\ recv' = [o \in Owners |->
                         IF o \notin Fitted THEN <<>>
                         ELSE LET p == inforce[o] IN
-                             [k \in 1..(UN + 1) |-> IF (k - 1) \in Grid(p) THEN Deliver(p, ModeOf(Setting(o).pk), Sample(p, k - 1))
+                             [k \in 1..(UN + 1) |-> IF (k - 1) \in Grid(p) THEN Deliver(p, ModeOf(Setting(o).pk), Sample(p, CubeK(k - 1)))
                                                     ELSE [sp |-> "none", x |-> Q(0)]]]
+          /\ trecv' = [o \in Owners |->
+                        IF o \notin Fitted THEN <<>>
+                        ELSE [i \in 1..Len(TailPts) |-> CubeTail(inforce[o], TailPts[i])]]
           /\ phase' = "done"
-          /\ UNCHANGED <<focus, comp, pk, route, name, call, user, inforce>>
+          /\ UNCHANGED <<focus, comp, pk, route, name, call, user, inforce, via>>
 Next == Attach \/ CompileModel \/ CompileObservation \/ Recompile \/ Update
 Spec == Init /\ [][Next]_vars
 
@@ -128,6 +161,15 @@ Expected(o) == Build(Setting(o).call)
 DeliveryInv == Done => \A o \in Fitted : \A k \in Grid(Expected(o)) :
                  /\ recv[o][k + 1].x = Sample(Expected(o), k)
                  /\ recv[o][k + 1].sp = (IF Setting(o).call.cls \in LogKinds THEN "pow10" ELSE "id")
+\* the callable the sampler is handed is the exact inverse CDF on the whole cube: the grid with its faces (k = 0, UN for the
+\* uniform kinds) and the tail ladder -- not clipped, not flat near the faces -- whoever maps the cube
+SamplerInv == Done => \A o \in Fitted :
+                 /\ \A k \in Grid(Expected(o)) : recv[o][k + 1].x = Sample(Expected(o), k)
+                 /\ Len(trecv[o]) = Len(TailPts)
+                 /\ \A i \in 1..Len(TailPts) : trecv[o][i] = TailSample(Expected(o), TailPts[i])
+                 /\ Expected(o).kind \in UniKinds =>
+                        /\ recv[o][1].x = Expected(o).a /\ recv[o][UN + 1].x = Expected(o).b
+                        /\ \A i \in 1..Len(TailPts) : trecv[o][i].w = RSub(Expected(o).b, Expected(o).a)
 RouteInv == Compiled => \A o \in Fitted : inforce[o] = Expected(o)
 \* a user prior is the prior in force (for either owner, in any company) ...
 UserPriorInForceInv == Compiled => \A o \in Fitted : user[o] # NoPrior => inforce[o] = user[o]
@@ -146,8 +188,9 @@ FitsInv == Done => \A o \in Fitted : \A k \in 1..Len(recv[o]) : Fits(recv[o][k].
 Slot(o) == LET s == Setting(o) IN
     [owner |-> o, role |-> IF o = focus THEN "focus" ELSE "company", pk |-> s.pk, mode |-> ModeOf(s.pk), route |-> s.route,
      name |-> s.name, call |-> s.call, bounds |-> s.bounds, given |-> user[o] # NoPrior, p |-> inforce[o],
-     space |-> SpaceOf(inforce[o].kind), recv |-> recv[o]]
+     space |-> SpaceOf(inforce[o].kind), recv |-> recv[o], t |-> trecv[o]]
 Emit == (Export /\ Done) =>
     PrintT(<<"DLV", ToJson([focus |-> focus, comp |-> comp, pk |-> pk, mode |-> ModeOf(pk), route |-> route, name |-> name,
-                            call |-> call, slots |-> [o \in Fitted |-> Slot(o)], un |-> UN])>>)
+                            call |-> call, slots |-> [o \in Fitted |-> Slot(o)], un |-> UN, via |-> via,
+                            tpts |-> TailPts, zts |-> ZTS])>>)
 =============================================================================
